@@ -2,6 +2,7 @@
 scratch copy of the repository, with contract text spliced in.  Only additions are spliced; the fixed
 rewrite list (R1, R2, R4, ret-naming) is applied mechanically and every application is recorded."""
 import hashlib
+import os
 import re
 import shlex
 
@@ -54,6 +55,8 @@ class FnTarget:
         self.loops = {}
         self.loop_iters = {}   # loop ordinal -> name of the Verus ghost iterator (`for p in NAME: e`)
         self.hints = []
+        self.tail = None       # proof text put before the closing brace of the body (unit-returning fns only)
+        self.closures = {}     # closure ordinal -> contract text for the k-th closure expression of the body
         self.omit = False
         self.canary = True
 
@@ -109,7 +112,7 @@ class Assembler:
         self.dropped = []
         self.rewrites = []
         self.canaries = 0
-        lines = open(self.unit_path).read().split('\n')
+        lines = self._with_includes(open(self.unit_path).read().split('\n'))
         i = 0
         verb_start = None
         verb = []
@@ -156,8 +159,16 @@ class Assembler:
                         tgt.head = text
                     elif kind == 'loop':
                         tgt.loops[cur_field[1]] = text
+                    elif kind == 'tail':
+                        tgt.tail = text
+                    elif kind == 'closure':
+                        tgt.closures[cur_field[1]] = text
+                    elif kind == 'hint-last':
+                        tgt.hints.append(('#LAST ' + cur_field[1], text, False))
                     elif kind == 'hint':
-                        tgt.hints.append((cur_field[1], text))
+                        tgt.hints.append((cur_field[1], text, False))
+                    elif kind == 'hint-after':
+                        tgt.hints.append((cur_field[1], text, True))
                     cur_field, buf = None, []
 
                 # default target: the selected item itself if it is a fn
@@ -193,6 +204,18 @@ class Assembler:
                                 if not re.match(r'^iter=[A-Za-z_]\w*$', opt):
                                     raise UnitSyntax('line %d: bad loop option %r' % (i + 1, opt))
                                 blk.cur.loop_iters[int(lp[0])] = opt[5:]
+                        elif d == 'tail':
+                            cur_field = ('tail',)
+                        elif d.startswith('closure '):
+                            cur_field = ('closure', int(d[8:].strip()))
+                        elif d.startswith('iter '):
+                            n_, nm_ = d[5:].split()
+                            blk.cur.loop_iters[int(n_)] = nm_
+                        elif d.startswith('hint-last '):
+                            # like hint, but anchors at the LAST occurrence of the text
+                            cur_field = ('hint-last', d[10:].strip())
+                        elif d.startswith('hint-after '):
+                            cur_field = ('hint-after', d[11:].strip())
                         elif d.startswith('hint '):
                             cur_field = ('hint', d[5:].strip())
                         elif d == 'keep-attrs':
@@ -222,6 +245,25 @@ class Assembler:
             i += 1
         flush()
         return ''.join(p.text for p in self.pieces)
+
+    def _with_includes(self, lines, depth=0):
+        """`//@ include NAME` (outside extract blocks) is replaced by the lines of NAME, a file next to the unit
+        (shared contract text, e.g. the trait-level parser contract used by several units)"""
+        out = []
+        for ln in lines:
+            m = re.match(r'\s*//@ include\s+(\S+)\s*$', ln)
+            if not m:
+                out.append(ln)
+                continue
+            if depth > 3:
+                raise UnitSyntax('include nesting too deep at %r' % ln)
+            inc = os.path.join(os.path.dirname(self.unit_path), m.group(1))
+            try:
+                inc_lines = open(inc).read().split('\n')
+            except OSError:
+                raise UnitSyntax('include file %s not found' % inc)
+            out.extend(self._with_includes(inc_lines, depth + 1))
+        return out
 
     def _meta(self, d):
         parts = shlex.split(d)
@@ -288,10 +330,16 @@ class Assembler:
                 self.canaries += 1
             if head:
                 edits.append((st[a].end, st[a].end, head))
-            # loops, R1, R2 inside the body
+            if tgt and tgt.tail:
+                # last statement(s) of the body; only meaningful for a fn whose body does not end in a value
+                # expression (otherwise Verus rejects the file -> UNDECIDED, never a silent change)
+                edits.append((st[b].start, st[b].start, '\n' + tgt.tail + '\n'))
+            # loops, closures, R1, R2 inside the body
             k = a + 1
             loop_no = 0
             seen_loops = set()
+            closure_no = 0
+            seen_closures = set()
             while k < b:
                 t = st[k]
                 if t.kind == 'ident' and t.text in LOOP_KW and not (t.text == 'for' and st[k + 1].text == '<'):
@@ -333,6 +381,52 @@ class Assembler:
                     if canary and (tgt is None or tgt.canary):
                         edits.append((st[j].end, st[j].end, '\nproof { assert(false); } // RBVERIF_CANARY\n'))
                         self.canaries += 1
+                elif (t.text == '|' and t.kind == 'punct' and st[k - 1].text in ('(', ',', '=', 'move', 'return')
+                      and not (st[k - 1].text == '=' and st[k - 2].text in ('=', '!', '<', '>', '|'))):
+                    # a closure expression `|params| body` / `|| body` in argument or initializer position.
+                    # A contract for it (Verus: `|params| -> (r: T) requires .. ensures .. { body }`) is spliced
+                    # between the parameter list and the body; a body that is a bare expression is wrapped in
+                    # braces.  Nothing of the closure's own tokens is changed.
+                    closure_no += 1
+                    if st[k + 1].text == '|' and st[k + 1].start == t.end:
+                        pe = k + 1
+                    else:
+                        pe = k + 1
+                        depth = 0
+                        while not (st[pe].text == '|' and depth == 0):
+                            if st[pe].text in '([<':
+                                depth += 1
+                            elif st[pe].text in ')]>':
+                                depth -= 1
+                            pe += 1
+                    if tgt and closure_no in tgt.closures:
+                        seen_closures.add(closure_no)
+                        ctext = tgt.closures[closure_no]
+                        self.rewrites.append('C %s:%d closure #%d of fn %s: contract spliced between parameters and body%s'
+                                             % (blk.relpath, src.line_of(t.start), closure_no, tgt.name,
+                                                '' if st[pe + 1].text == '{' else ' (body expression wrapped in braces)'))
+                        if st[pe + 1].text == '{':
+                            edits.append((st[pe].end, st[pe].end, ' ' + ctext + ' '))
+                        else:
+                            # body = expression up to the ',' or closing bracket of the enclosing call
+                            q = pe + 1
+                            depth = 0
+                            while True:
+                                tq = st[q]
+                                if tq.kind == 'punct':
+                                    if tq.text in '([{':
+                                        depth += 1
+                                    elif tq.text in ')]}':
+                                        if depth == 0:
+                                            break
+                                        depth -= 1
+                                    elif tq.text in ',;' and depth == 0:
+                                        break
+                                q += 1
+                            edits.append((st[pe].end, st[pe].end, ' ' + ctext + ' {'))
+                            edits.append((st[q - 1].end, st[q - 1].end, ' }'))
+                    k = pe + 1
+                    continue
                 elif t.kind == 'ident' and k + 2 < b and st[k + 1].text == '!' and st[k + 2].text in ('(', '[', '{'):
                     if t.text in DEBUG_MACROS:
                         kc = match_close(st, k + 2)
@@ -343,23 +437,51 @@ class Assembler:
                         continue
                     if t.text in PANIC_MACROS:
                         kc = match_close(st, k + 2)
-                        edits.append((t.start, st[kc].end, 'vstd::pervasive::unreached()'))
-                        self.rewrites.append('R2 %s:%d %s! -> unreached()' % (blk.relpath, src.line_of(t.start), t.text))
+                        if (st[k - 1].text == '|' and st[k - 2].text == '|' and st[k - 2].end == st[k - 1].start
+                                and st[k - 3].text in ('(', ',')):
+                            # the macro is the whole body of a parameterless closure argument `|| panic!(..)`:
+                            # a closure has no contract of its own, so "the panic is unreachable" is stated as
+                            # the closure's precondition `false` (the caller must then prove it is never called)
+                            edits.append((t.start, st[kc].end, 'requires false { vstd::pervasive::unreached() }'))
+                            self.rewrites.append('R2 %s:%d || %s! -> || requires false { unreached() }' % (blk.relpath, src.line_of(t.start), t.text))
+                        else:
+                            # in statement position (`panic!(..);`) the type parameter cannot be inferred: say `()`
+                            stmt_pos = kc + 1 < len(st) and st[kc + 1].text == ';'
+                            edits.append((t.start, st[kc].end,
+                                          'vstd::pervasive::unreached::<()>()' if stmt_pos else 'vstd::pervasive::unreached()'))
+                            self.rewrites.append('R2 %s:%d %s! -> unreached()' % (blk.relpath, src.line_of(t.start), t.text))
                         k = kc + 1
                         continue
                 k += 1
             if tgt:
+                for n in tgt.closures:
+                    if n not in seen_closures:
+                        raise AnchorLost('fn %s has no closure #%d (found %d) in %s' % (tgt.name, n, closure_no, blk.relpath))
                 for n in tgt.loops:
                     if n not in seen_loops:
                         raise AnchorLost('fn %s has no loop #%d (found %d) in %s' % (tgt.name, n, loop_no, blk.relpath))
                 lo, hi = st[a].end, st[b].start
-                for stmt, htext in tgt.hints:
+                for stmt, htext, after in tgt.hints:
                     body = text[lo:hi]
+                    # `#N <text>`: the N-th of exactly-counted occurrences, written `#N/M <text>` (M = how many there must be)
+                    nth, want = 1, 1
+                    mo = re.match(r'#(\d+)/(\d+)\s+(.*)$', stmt)
+                    if mo:
+                        nth, want, stmt = int(mo.group(1)), int(mo.group(2)), mo.group(3)
                     cnt = body.count(stmt)
-                    if cnt != 1:
-                        raise AnchorLost('hint statement %r occurs %d times in fn %s (%s)' % (stmt, cnt, tgt.name, blk.relpath))
-                    off = lo + body.index(stmt)
-                    edits.append((off, off, htext + '\n'))
+                    if stmt.startswith('#LAST '):
+                        stmt = stmt[6:]
+                        cnt = body.count(stmt)
+                        if cnt < 1:
+                            raise AnchorLost('hint statement %r not found in fn %s (%s)' % (stmt, tgt.name, blk.relpath))
+                        nth = want = cnt
+                    if cnt != want or not (1 <= nth <= want):
+                        raise AnchorLost('hint statement %r occurs %d times in fn %s (%s), expected %d' % (stmt, cnt, tgt.name, blk.relpath, want))
+                    idx = -1
+                    for _ in range(nth):
+                        idx = body.index(stmt, idx + 1)
+                    off = lo + idx + (len(stmt) if after else 0)
+                    edits.append((off, off, ('\n' if after else '') + htext + '\n'))
 
         def strip_attrs(it):
             if blk.keep_attrs:
